@@ -121,6 +121,9 @@ func solve(dir string, idx int, query string, quickT, fullT time.Duration, wantS
 		if x.st == "sat" && best.st != "sat" {
 			best = x
 		}
+		if x.st == "error" && best.st == "unknown" && best.out == "" {
+			best = x
+		}
 	}
 	res.Status, res.Solver, res.Seconds, res.Output = best.st, best.name, best.secs, best.out
 	return res
